@@ -58,9 +58,11 @@ Pattern:
 			return false, err
 		}
 		if star {
-			// Look for match skipping i+1 bytes.
-			for i := 0; i < len(name); i++ {
-				t, ok, err := matchChunk(chunk, name[i+1:])
+			// Look for match skipping the first i bytes, always whole characters.
+			for i := 0; i < len(name); {
+				_, n := utf8.DecodeRuneInString(name[i:])
+				i += n
+				t, ok, err := matchChunk(chunk, name[i:])
 				if ok {
 					// if we're the last chunk, make sure we exhausted the name
 					if len(pattern) == 0 && len(t) > 0 {
